@@ -99,6 +99,48 @@ static void fwake(int* w)
     syscall(SYS_futex, w, FUTEX_WAKE, 1, NULL, NULL, 0);
 }
 
+/* reader/writer locks: modelled like the mutexes (acquisition is a schedule point; a thread whose request
+ * cannot be granted is disabled), so that threads may be preempted while they hold the SHARED side */
+#define MAXRW 4
+static void* g_rw[MAXRW];
+static int   g_rw_writer[MAXRW];          /* tid of the exclusive holder or -1 */
+static int   g_rw_readers[MAXRW][SCH_MAXT]; /* shared hold count per thread */
+static int   g_nrw;
+static int   rw_index(void* l, int create)
+{
+    for (int i = 0; i < g_nrw; i++)
+        if (g_rw[i] == l)
+            return i;
+    if (!create || g_nrw >= MAXRW)
+        return -1;
+    g_rw[g_nrw]        = l;
+    g_rw_writer[g_nrw] = -1;
+    memset(g_rw_readers[g_nrw], 0, sizeof g_rw_readers[g_nrw]);
+    return g_nrw++;
+}
+static int rw_grantable(void* l, int tid, int exclusive)
+{
+    int i = rw_index(l, 0);
+    if (i < 0)
+        return 1;
+    if (g_rw_writer[i] >= 0)
+        return 0;
+    if (exclusive)
+        for (int t = 0; t < SCH_MAXT; t++)
+            if (g_rw_readers[i][t] > 0 && t != tid)
+                return 0;
+    if (exclusive && g_rw_readers[i][tid] > 0)
+        return 0; /* upgrade = self-deadlock */
+    return 1;
+}
+static int holds_exclusive_rw(int tid)
+{
+    for (int i = 0; i < g_nrw; i++)
+        if (g_rw_writer[i] == tid)
+            return 1;
+    return 0;
+}
+
 static int owner_of(void* m)
 {
     for (int i = 0; i < g_nm; i++)
@@ -160,6 +202,10 @@ static int enabled(int t)
         if (o >= 0 && !(o == t && is_recursive(g_want[t])))
             return 0; /* held by another thread, or by itself on a non-recursive mutex: self-deadlock */
     }
+    if (g_kind[t] == SCH_RDLOCK && !rw_grantable(g_want[t], t, 0))
+        return 0;
+    if (g_kind[t] == SCH_WRLOCK && !rw_grantable(g_want[t], t, 1))
+        return 0;
     return 1;
 }
 
@@ -233,6 +279,21 @@ static void point(int kind, void* m)
         fwait(&g_turn[me]);
     }
     g_status[me] = ST_RUNNING;
+    if (kind == SCH_RDLOCK || kind == SCH_WRLOCK)
+    {
+        int i = rw_index(m, 1);
+        if (i >= 0)
+        {
+            if (kind == SCH_WRLOCK)
+                g_rw_writer[i] = me;
+            else
+                g_rw_readers[i][me]++;
+        }
+        else
+            g_overflow = 1;
+        if (g_curop[me] >= 0 && g_curop[me] < SCH_MAXOPS)
+            g_lockpts[me][g_curop[me]]++;
+    }
     if (kind == SCH_LOCK)
     {
         acquire(m, me);
@@ -248,8 +309,9 @@ void sch_reset(int nthreads, const int* prefix, int prefix_len)
     g_n = nthreads;
     memset(g_status, 0, sizeof g_status);
     memset(g_turn, 0, sizeof g_turn);
-    g_nm = 0;
-    g_np = 0;
+    g_nm  = 0;
+    g_nrw = 0;
+    g_np  = 0;
     g_deadlock = g_diverged = g_overflow = 0;
     g_step                               = 0;
     g_prefix_len                         = prefix_len < SCH_MAXPTS ? prefix_len : SCH_MAXPTS;
@@ -352,7 +414,9 @@ void sch_alloc_point(void)
     if (!g_alloc_on || !g_active || t_tid < 0)
         return;
     int me = t_tid;
-    if (g_status[me] != ST_RUNNING || g_curop[me] < 0 || holds_any(me) || t_rwheld > 0)
+    if (g_status[me] != ST_RUNNING || g_curop[me] < 0 || holds_any(me) || holds_exclusive_rw(me))
+        return;
+    if (t_rwheld > 0 && !g_active)
         return;
     point(SCH_ALLOC, NULL);
 }
@@ -375,9 +439,21 @@ static void resolve_rw(void)
     real_trywrlock = (int (*)(pthread_rwlock_t*))dlsym(RTLD_NEXT, "pthread_rwlock_trywrlock");
     real_rwunlock  = (int (*)(pthread_rwlock_t*))dlsym(RTLD_NEXT, "pthread_rwlock_unlock");
 }
+static void rw_release(void* l, int tid)
+{
+    int i = rw_index(l, 0);
+    if (i < 0)
+        return;
+    if (g_rw_writer[i] == tid)
+        g_rw_writer[i] = -1;
+    else if (g_rw_readers[i][tid] > 0)
+        g_rw_readers[i][tid]--;
+}
 int pthread_rwlock_rdlock(pthread_rwlock_t* l)
 {
     resolve_rw();
+    if (g_active && t_tid >= 0)
+        point(SCH_RDLOCK, l);
     int r = real_rdlock(l);
     if (r == 0)
         t_rwheld++;
@@ -386,6 +462,8 @@ int pthread_rwlock_rdlock(pthread_rwlock_t* l)
 int pthread_rwlock_wrlock(pthread_rwlock_t* l)
 {
     resolve_rw();
+    if (g_active && t_tid >= 0)
+        point(SCH_WRLOCK, l);
     int r = real_wrlock(l);
     if (r == 0)
         t_rwheld++;
@@ -394,6 +472,14 @@ int pthread_rwlock_wrlock(pthread_rwlock_t* l)
 int pthread_rwlock_tryrdlock(pthread_rwlock_t* l)
 {
     resolve_rw();
+    if (g_active && t_tid >= 0)
+    {
+        if (!rw_grantable(l, t_tid, 0))
+            return EBUSY;
+        int i = rw_index(l, 1);
+        if (i >= 0)
+            g_rw_readers[i][t_tid]++;
+    }
     int r = real_tryrdlock(l);
     if (r == 0)
         t_rwheld++;
@@ -402,6 +488,14 @@ int pthread_rwlock_tryrdlock(pthread_rwlock_t* l)
 int pthread_rwlock_trywrlock(pthread_rwlock_t* l)
 {
     resolve_rw();
+    if (g_active && t_tid >= 0)
+    {
+        if (!rw_grantable(l, t_tid, 1))
+            return EBUSY;
+        int i = rw_index(l, 1);
+        if (i >= 0)
+            g_rw_writer[i] = t_tid;
+    }
     int r = real_trywrlock(l);
     if (r == 0)
         t_rwheld++;
@@ -410,6 +504,8 @@ int pthread_rwlock_trywrlock(pthread_rwlock_t* l)
 int pthread_rwlock_unlock(pthread_rwlock_t* l)
 {
     resolve_rw();
+    if (g_active && t_tid >= 0)
+        rw_release(l, t_tid);
     if (t_rwheld > 0)
         t_rwheld--;
     return real_rwunlock(l);
